@@ -2,7 +2,7 @@
 R-ATOMIC (no refusal after a mutation), R-EMPTY (emptied collection is removed)."""
 import re
 from facts import callee, op_local, op_place, const_str, op_is_const
-import cfg, shared
+import cfg, shared, prov
 from shared import ENGINE, SERVER
 
 PNC = SERVER + "process_normal_command"
@@ -474,3 +474,116 @@ def make_bytes_engine_rule(pid):
                                       fn.split("::")[-1], m, k, b.bb_line(i), shared.short_callee(f_), ctx.prog.bodies[w].loc(bb_)), b.loc(i))
         R.floor("byte_arguments_of_engine_calls", n)
     return rule
+
+
+# ---- R-KEYS-GLOB ----------------------------------------------------------------------------------
+def rule_keys_glob(ctx, R):
+    """KEYS answers with the keys that match the glob -- every element of the answer went through
+    the matcher.  The vector returned is one that is filled only under a pattern_matches test (or
+    stays empty); an answer built from the pattern itself (a `no wildcard` lookup shortcut) treats
+    escapes and classes differently from the matcher."""
+    import boolpath
+    b = ctx.prog.need(ENGINE + "keys")
+    PMF = re.compile(r"^storage::engine::pattern_matches$|::pattern_matches$")
+
+    class S(boolpath.Spec):
+        def call(s, b_, bbi, t):
+            return boolpath.A if PMF.search(callee(t)) else None
+    ex = boolpath.explore(b, S())
+    n = 0
+    for i, bb in enumerate(b.bbs):
+        if bb["cleanup"]:
+            continue
+        for st in bb["s"]:
+            if not (st["k"] == "=" and st["l"]["l"] == 0 and not st["l"]["p"] and st["r"]["k"] == "agg" and st["r"]["a"].endswith("Result::Ok") and st["r"]["o"]):
+                continue
+            n += 1
+            o = st["r"]["o"][0]
+            ok = True; why = None
+            if not op_is_const(o):
+                P = prov.operand_origins(b, o)
+                for r in P.roots:
+                    if r[0] == "call" and re.search(r"Vec::<std::vec::Vec<u8>>::(new|with_capacity)$", r[1]):
+                        L = b.term(r[2])["d"]["l"]
+                        import rules_rdb
+                        pushes = [j for j, tj in b.calls() if re.search(r"Vec::<std::vec::Vec<u8>>::(push|extend|extend_from_slice|append|insert)", tj["f"] or "") and tj["a"] and not op_is_const(tj["a"][0]) and L in rules_rdb.root_locals(b, tj["a"][0])]
+                        if any(j in ex.reached for j in pushes):
+                            ok = False; why = "filled outside a pattern_matches test (line %d)" % b.bb_line([j for j in pushes if j in ex.reached][0])
+                    elif r[0] == "call":
+                        ok = False; why = "built by %s, not by the matching loop" % shared.short_callee(r[1])
+                    elif r[0] in ("param", "agg") :
+                        ok = False; why = "not the vector filled by the matching loop"
+            R.inst(b.fn, "answer#%d" % 0, {"at": b.loc(i), "from_the_matching_loop": ok})
+            if not ok:
+                R.finding(b.fn, "answer:not-from-the-matching-loop",
+                          "keys answers (line %d) with a vector %s: its elements did not go through the glob matcher, so patterns the shortcut reads differently (escapes such as `dir\\\\file`, classes) get a different answer" % (b.bb_line(i), why), b.loc(i))
+    R.floor("keys_answers", n)
+
+
+# ---- R-COUNT-STOP ---------------------------------------------------------------------------------
+def rule_count_stop(ctx, R):
+    """`count - 1` as the inclusive stop of a range read needs count >= 1: with count 0 the stop is
+    -1, which the range commands read as `to the last element`.  Every engine range call whose
+    start / stop operand is `x - 1` is dominated by a comparison of x with 0 or 1 (or x is at
+    least 1 by construction: `max(1)`)."""
+    n = 0
+    for fn, b in sorted(ctx.prog.bodies.items()):
+        if not fn.startswith(("network::", "storage::commands::")) or "::tests::" in fn:
+            continue
+        for i, t in b.calls():
+            c = callee(t)
+            if not re.search(r"^storage::engine::StorageEngine::(zrange|lrange|ltrim|getrange|zremrangebyrank)$", c) or b.bbs[i]["cleanup"]:
+                continue
+            for k, a in enumerate(t["a"]):
+                if op_is_const(a) or not re.match(r"^(isize|i64)$", b.locals[op_place(a)["l"]] or ""):
+                    continue
+                # defined as x - 1 ?
+                subs = []
+                seen = set(); st_ = [op_place(a)["l"]]
+                while st_:
+                    l = st_.pop()
+                    if l in seen or len(seen) > 12:
+                        continue
+                    seen.add(l)
+                    for kind, bbi, x in prov.build_defs(b).get(l, ()):
+                        if kind == "stmt" and not x["l"]["p"]:
+                            r = x["r"]
+                            if r["k"] == "bin" and r.get("op") in ("Sub", "SubWithOverflow", "SubUnchecked") and op_is_const(r["b"]) and str(r["b"].get("v")) == "1" and not op_is_const(r["a"]):
+                                subs.append(r["a"])
+                            elif r["k"] in ("use", "cast") and not op_is_const(r["o"]):
+                                st_.append(op_place(r["o"])["l"])
+                def chain(o, lim=14):
+                    """locals this value is a copy / cast / unwrapping / conversion of"""
+                    out_ = set(); st2 = [op_place(o)["l"]] if not op_is_const(o) else []
+                    while st2 and len(out_) < lim:
+                        l2 = st2.pop()
+                        if l2 in out_:
+                            continue
+                        out_.add(l2)
+                        for kind2, bb2, x2 in prov.build_defs(b).get(l2, ()):
+                            if kind2 == "stmt" and not x2["l"]["p"] and x2["r"]["k"] in ("use", "cast") and not op_is_const(x2["r"]["o"]):
+                                st2.append(op_place(x2["r"]["o"])["l"])
+                            elif kind2 == "call" and re.search(r"::(unwrap_or|unwrap_or_default|unwrap|expect|ok|try_from|try_into|from|into|branch)(::<.*>)?$", x2["f"] or "") and x2["a"] and not op_is_const(x2["a"][0]):
+                                st2.append(op_place(x2["a"][0])["l"])
+                    return out_
+                for xo in subs:
+                    n += 1
+                    X = prov.operand_origins(b, xo, deep=True)
+                    xr = chain(xo)
+                    guarded = X.has_call(r"::max$|cmp::max::<|NonZero")
+                    for d in [y for y in range(len(b.bbs)) if cfg.dominates(b, y, i)]:
+                        for st in b.bbs[d]["s"]:
+                            if st["k"] == "=" and st["r"]["k"] == "bin" and st["r"].get("op") in ("Eq", "Ne", "Lt", "Le", "Gt", "Ge"):
+                                ops = (st["r"]["a"], st["r"]["b"])
+                                cs = [o for o in ops if op_is_const(o) and str(o.get("v")) in ("0", "1")]
+                                vs = [o for o in ops if not op_is_const(o)]
+                                if cs and vs and (chain(vs[0]) & xr):
+                                    guarded = True
+                        tt = b.bbs[d]["t"]
+                        if tt["k"] == "switch" and not op_is_const(tt["d"]) and tt.get("dty") not in ("bool",) and (chain(tt["d"]) & xr) and any(v in (0, 1) for v, _ in tt["ts"]) and not any(st2["k"] == "=" and st2["r"]["k"] == "discr" and st2["l"]["l"] == op_place(tt["d"])["l"] for st2 in b.bbs[d]["s"]):
+                            guarded = True
+                    R.inst(fn, "count-minus-one:%s#%d" % (c.split("::")[-1], k), {"function": fn, "at": b.loc(i), "count_compared_with_0_or_1_before": guarded})
+                    if not guarded:
+                        R.finding(fn, "count-minus-one:%s#%d:zero-not-excluded" % (c.split("::")[-1], k),
+                                  "%s hands %s a bound computed as `count - 1` (line %d) with no test that the count is at least 1: a count of 0 becomes -1, which the range read takes for `to the last element` -- the whole collection instead of nothing" % (fn.split("::")[-1], c.split("::")[-1], b.bb_line(i)), b.loc(i))
+    R.inst("commands", "count-minus-one-sites", {"sites": n})
